@@ -274,6 +274,10 @@ def run(check, repo: Repo) -> None:
                 form = "over-delta-no-insert"
             else:
                 form = "over-delta-insert"
+        elif isinstance(n_, ast.For) and unparse(n_.iter).startswith("updated_coefs_cartesian") and "delta_coefs_cartesian" not in unparse(n_.iter):
+            bt_ = " ".join(unparse(x) for x in n_.body)
+            if "updated_coefs_cartesian[k] =" in bt_ and "delta_coefs_cartesian.get(k" in bt_ and "+" in bt_:
+                form = "over-init"
         elif isinstance(n_, ast.Assign) and isinstance(n_.value, ast.DictComp) and dotted(n_.targets[0]) == "updated_coefs_cartesian":
             it_ = unparse(n_.value.generators[0].iter)
             vt_ = unparse(n_.value.value)
